@@ -61,6 +61,8 @@ func main() {
 		res = runDisc(a)
 	case "explore":
 		res = runExplore(a)
+	case "replicas":
+		res = runReplicasEngine(a)
 	default:
 		fmt.Fprintln(os.Stderr, "unknown engine", a.engine)
 		os.Exit(2)
